@@ -94,10 +94,15 @@ NoCoarseRowSplit(t, k, px, edges) ==
 -----------------------------------------------------------------------------
 (* multi-resolution files: get_multiplier_sequence *)
 \* resn: sorted sequence of all resolutions (bases and targets); pred[i] = 0 for none (code: -1)
-PredOf(resn, i) ==
+\* pinned code (defect F30): a base that a smaller member divides got a predecessor too - zoomify_cooler then re-derived it
+\* from the smaller base and OVERWROTE the copy of the cooler supplied for it
+PredOfPinned(resn, i) ==
   LET cands == {p \in 1..(i - 1) : resn[i] % resn[p] = 0} IN IF cands = {} THEN 0 ELSE Max(cands)
-MultiplierSequence(resn) == [i \in DOMAIN resn |-> <<PredOf(resn, i), IF PredOf(resn, i) = 0 THEN 0 ELSE resn[i] \div resn[PredOf(resn, i)]>>]
-Refused(resn, bases) == \E i \in DOMAIN resn : PredOf(resn, i) = 0 /\ resn[i] \notin bases
+\* repaired: a base has no predecessor
+PredOf(resn, i, bases) == IF resn[i] \in bases THEN 0 ELSE PredOfPinned(resn, i)
+MultiplierSequence(resn, bases) ==
+  [i \in DOMAIN resn |-> <<PredOf(resn, i, bases), IF PredOf(resn, i, bases) = 0 THEN 0 ELSE resn[i] \div resn[PredOf(resn, i, bases)]>>]
+Refused(resn, bases) == \E i \in DOMAIN resn : PredOf(resn, i, bases) = 0 /\ resn[i] \notin bases
 \* Layer D: r is derivable if it is a base or an integer multiple of a derivable smaller member
 RECURSIVE Derivable(_, _, _)
 Derivable(r, S, bases) ==
